@@ -81,13 +81,22 @@ func verifAddNode(path string, kind int, target string) {
 
 // verifResolve follows a symlinked leading directory component (/l/x -> /d/x).
 func verifResolve(path string) string {
+	path = filepath.Clean(path) // the kernel does not care about ./ and // (the model has no .. through symlinks)
 	for i := 0; i < verifQ.nnodes; i++ {
 		n := &verifQ.nodes[i]
 		if n.kind == nSymlink && len(path) > len(n.path) && path[:len(n.path)] == n.path && path[len(n.path)] == '/' {
-			return n.target + path[len(n.path):]
+			return verifTargetOf(n) + path[len(n.path):]
 		}
 	}
 	return path
+}
+
+// verifTargetOf: where a symlink points, relative targets taken from the link's directory.
+func verifTargetOf(n *verifNode) string {
+	if filepath.IsAbs(n.target) {
+		return filepath.Clean(n.target)
+	}
+	return filepath.Join(filepath.Dir(n.path), n.target)
 }
 
 func verifNodeOf(path string) *verifNode {
@@ -328,7 +337,7 @@ func verifReadDir(dir string) ([]os.DirEntry, error) {
 		return nil, unix.ENOENT
 	}
 	if d.kind == nSymlink {
-		d = verifNodeOf(d.target)
+		d = verifNodeOf(verifTargetOf(d))
 		if d == nil {
 			return nil, unix.ENOENT
 		}
